@@ -735,3 +735,35 @@ _REG["ghost:rec_text_round_trip"].modes = ["gregorian"]
 _REG["ghost:rec_text_round_trip"].cases = [
     c for c in _REG["ghost:rec_text_round_trip"].cases
     if not c.name.startswith("fwd-bounded") or c.name in ("fwd-bounded/D---", "fwd-bounded/-H--")]
+
+
+# ---------------------------------------------------------------- TimePointParser(...) on concrete arguments
+def _tpp_init_havoc(E, st, env):
+    """TimePointParser.__init__ with CONCRETE arguments is evaluated natively (the real
+    constructor builds the regex tables); the resulting attributes are loaded into the
+    receiver.  Listed as an assumption: constructor evaluated, not verified."""
+    names = ("num_expanded_year_digits", "allow_truncated", "allow_only_basic",
+             "assumed_time_zone", "default_to_unknown_time_zone", "dump_format")
+    kw = {}
+    for n in names:
+        v = env.get(n)
+        if not (v is None or isinstance(v, (bool, int, str)) or (
+                isinstance(v, tuple) and all(isinstance(x, int) for x in v))):
+            from pyvc.values import OutOfReach
+            raise OutOfReach("TimePointParser(...) with a symbolic argument %s" % n)
+        kw[n] = v
+    import sys
+    if E.db.repo not in sys.path:
+        sys.path.insert(0, E.db.repo)
+    from metomi.isodatetime.parsers import TimePointParser
+    real = TimePointParser(**kw)
+    slots = st.obj(env["self"]).slots
+    for k, v in vars(real).items():
+        slots[k] = _to_engine(E, st, v) if k.endswith("_regex_map") else v
+
+
+contract("parsers:TimePointParser.__init__", havoc=_tpp_init_havoc, modifies_self=True,
+         applicable=lambda E, st, env: True, cases=[], ensures=[],
+         note="evaluated natively on concrete arguments (assumption)")
+for _q in ("parse_timepoint_expression",):
+    contract("parsers:" + _q, inline=True)
